@@ -3,7 +3,7 @@
 with it, (3) the demonstration passes without it.  Works on a scratch copy of /repo's HEAD."""
 import json, os, subprocess, sys, shutil, re
 V = os.path.dirname(os.path.dirname(os.path.abspath(__file__)))
-TARGET = '/var/tmp/vx/seed-target'
+TARGET = '/var/tmp/vx/confirm-target'
 def run(cmd, cwd):
     env = dict(os.environ, CARGO_TARGET_DIR=TARGET)
     return subprocess.run(cmd, shell=True, cwd=cwd, capture_output=True, text=True, env=env)
@@ -16,6 +16,9 @@ for sid in sys.argv[1:]:
     root = f'/var/tmp/vx/confirm-{sid}'
     shutil.rmtree(root, ignore_errors=True); os.makedirs(root)
     subprocess.run(f'git -C /repo archive HEAD | tar -x -C {root}', shell=True, check=True)
+    # fresh mtimes: cargo keys path packages relative to the workspace root, so a copy with old mtimes could
+    # silently reuse the artifact of an earlier (changed) copy
+    subprocess.run(f"find {root} -type f \\( -name '*.rs' -o -name '*.toml' \\) -exec touch {{}} +", shell=True, check=True)
     shutil.copy(os.path.join(d, m['demo_file']), os.path.join(root, m['demo_dest']))
     r0 = run(m['demo_cmd'], root); ok0, bad0 = counts(r0.stdout)
     ap = subprocess.run(['git', 'apply', os.path.join(d, 'patch.diff')], cwd=root, capture_output=True, text=True)
